@@ -151,6 +151,17 @@ class PArr:
     def copy(self):
         return PArr(self.shape, self._at, self.sort, label=self.label)
 
+    def all(self):
+        """boolean array: every entry true  <=>  the number of true entries equals the size (MaskSel counting function)"""
+        if self.sort != BOOL:
+            raise P.Undecided('all() of a non-boolean symbolic array')
+        return tm.eq(self.mask().total(), self.size)
+
+    def any(self):
+        if self.sort != BOOL:
+            raise P.Undecided('any() of a non-boolean symbolic array')
+        return self.mask().total() > 0
+
     def __invert__(self):
         r = PArr(self.shape, lambda *i: tm.not_(self.el(*i)), BOOL, label='not_' + self.label)
         r._complement = self
